@@ -43,7 +43,7 @@ Proof.
       assert (G : forall l acc, (length (cvars s) <= length (cvars (fst acc)))%nat ->
                   (length (cvars s) <= length (cvars (fst (fold_left F l acc))))%nat) end.
     { induction l as [|y l IH]; intros acc Ha; cbn [fold_left]; [exact Ha|]. apply IH.
-      destruct acc as [st rp]. cbn [fst] in *. destruct (ode_def st y) as [ode|]; [|exact Ha].
+      destruct acc as [st rp]. unfold free_step. cbn [fst] in *. destruct (ode_def st y) as [ode|]; [|exact Ha].
       destruct (q_lhs ode) as [x|x t']; [exact Ha|]. destruct (Nat.eqb t' v); [|exact Ha].
       cbn [move_ode_rhs fst cvars]. rewrite app_length. lia. }
     apply G. exact P1. }
